@@ -26,22 +26,13 @@ open RotoV.TraceSpec
 
 /-! ### T1 — order_spec: the clauses of the statement, as theorems about `evalExpr` -/
 
-/-- the host calls the operator itself makes once both operands are there: none, except for
-    `==` / `!=` on two values of a registered host type (the type's equality, once) -/
-def opCalls (op : BinOp) (a b : Val) : Trace :=
-  match binopEv op a b with
-  | some (t, _) => t
-  | none => []
-
 /-- Operands of a strict binary operator: the left operand's calls, then (only
     if the left ended normally) the right operand's calls, evaluated in the
-    environment the left operand left behind, then (only if both ended normally) the call the
-    operator itself stands for (`opCalls`: nothing for operands of primitive type). -/
+    environment the left operand left behind. The operator itself makes no call. -/
 theorem operands_left_to_right (fns : List FnDef) (n : Nat) (env : Env) (op : BinOp) (l r : Expr) :
     (evalExpr fns (n + 1) env (.bin op l r)).tr
       = (evalExpr fns n env l).tr
-        ++ (evalExpr fns n env l).after (fun p => (evalExpr fns n p.1 r).tr
-            ++ (evalExpr fns n p.1 r).after (fun q => opCalls op p.2 q.2)) := by
+        ++ (evalExpr fns n env l).after (fun p => (evalExpr fns n p.1 r).tr) := by
   simp only [evalExpr, bind_eq, R.bind_tr]
   congr 1
   unfold R.after
@@ -49,25 +40,49 @@ theorem operands_left_to_right (fns : List FnDef) (n : Nat) (env : Env) (op : Bi
   rename_i p
   cases (evalExpr fns n p.1 r).out <;> simp
   rename_i q
-  unfold opCalls
-  cases binopEv op p.2 q.2 <;> simp [pure_eq, R.ok, R.stuck, R.bind, R.emits]
+  cases binop op p.2 q.2 <;> simp [pure_eq, R.ok, R.stuck]
 
-/-- An operator on operands of primitive type makes no call of its own … -/
-theorem operator_on_primitives_makes_no_call (op : BinOp) (a b : Val) (h : ∀ x y, ¬ (a = .tok x ∧ b = .tok y)) :
-    opCalls op a b = [] := by
-  unfold opCalls binopEv
-  cases a <;> cases b <;> simp_all <;> cases binop op _ _ <;> simp
+/-- the host call `==` / `!=` on two host values stands for -/
+def eqCalls (ne : Bool) (a b : Val) : Trace :=
+  match hostEq ne a b with
+  | some (t, _) => t
+  | none => []
 
-/-- … and **`==` / `!=` on two values of the registered host type call the type's equality
-    exactly once, after both operands**: the calls of `l == r` are those of `l`, those of `r`,
-    then one call of the equality on the two values. -/
-theorem eq_on_host_type_calls_after_operands (fns : List FnDef) (n : Nat) (env env1 env2 : Env) (op : BinOp) (l r : Expr)
-    (t1 t2 : Trace) (x y : Int) (hop : op = .eq ∨ op = .ne)
+/-- `==` / `!=` on a registered host type (`eqH`): the left operand's calls, then the right
+    operand's, then (only if both ended normally) the call of the type's equality. -/
+theorem host_eq_operands_left_to_right (fns : List FnDef) (n : Nat) (env : Env) (ne : Bool) (l r : Expr) :
+    (evalExpr fns (n + 1) env (.eqH ne l r)).tr
+      = (evalExpr fns n env l).tr
+        ++ (evalExpr fns n env l).after (fun p => (evalExpr fns n p.1 r).tr
+            ++ (evalExpr fns n p.1 r).after (fun q => eqCalls ne p.2 q.2)) := by
+  simp only [evalExpr, bind_eq, R.bind_tr]
+  congr 1
+  unfold R.after
+  cases (evalExpr fns n env l).out <;> simp
+  rename_i p
+  cases (evalExpr fns n p.1 r).out <;> simp
+  rename_i q
+  unfold eqCalls
+  cases hostEq ne p.2 q.2 <;> simp [pure_eq, R.ok, R.stuck, R.bind, R.emits]
+
+/-- **`==` / `!=` on two values of the registered host type call the type's equality exactly
+    once, after both operands**: the calls of `l == r` are those of `l`, those of `r`, then one
+    call of the equality on the two values (`!=` negates its answer). -/
+theorem eq_on_host_type_calls_after_operands (fns : List FnDef) (n : Nat) (env env1 env2 : Env) (ne : Bool) (l r : Expr)
+    (t1 t2 : Trace) (x y : Int)
     (hl : (evalExpr fns n env l).yields t1 (env1, .tok x)) (hr : (evalExpr fns n env1 r).yields t2 (env2, .tok y)) :
-    (evalExpr fns (n + 1) env (.bin op l r)).yields (t1 ++ t2 ++ [⟨fnEq, [.tok x, .tok y]⟩])
-      (env2, .bool (if op = .eq then decide (x = y) else decide (x ≠ y))) := by
+    (evalExpr fns (n + 1) env (.eqH ne l r)).yields (t1 ++ t2 ++ [⟨fnEq, [.tok x, .tok y]⟩])
+      (env2, .bool (if ne then decide (x ≠ y) else decide (x = y))) := by
   simp only [evalExpr, bind_eq, R.bind_yields hl, R.bind_yields hr]
-  rcases hop with rfl | rfl <;> simp [binopEv, pure_eq, R.ok, R.yields, R.bind, R.emits]
+  simp [hostEq, pure_eq, R.ok, R.yields, R.bind, R.emits]
+
+/-- … if an operand leaves the function the equality is not called -/
+theorem host_eq_operand_leaves (fns : List FnDef) (n : Nat) (env env1 : Env) (ne : Bool) (l r : Expr)
+    (t1 t2 : Trace) (a v : Val)
+    (hl : (evalExpr fns n env l).yields t1 (env1, a)) (hr : (evalExpr fns n env1 r).leaves t2 v) :
+    (evalExpr fns (n + 1) env (.eqH ne l r)).leaves (t1 ++ t2) v := by
+  simp only [evalExpr, bind_eq, R.bind_yields hl, R.bind_leaves hr]
+  simp [R.leaves]
 
 /-! #### f-string parts, and the `to_string` call the compiler inserts for a part of a host type -/
 
@@ -485,8 +500,8 @@ theorem run_fuel_independent (fns : List FnDef) (args : List Val) (fuel fuel' : 
   `e.f` materialises `e`), list literals, f-strings (every part converted — for a
   value of the registered host type by a logged call of its `to_string`, the call
   the compiler inserts implicitly — and appended before the next part is lowered),
-  `==` / `!=` on the host type (the lazy `BinOp` value stands for a logged call of
-  the type's equality, made where the value is materialised), string concatenation
+  `==` / `!=` on the host type (`eqH`: the lazy `BinOp` value stands for a logged call
+  of the type's equality, made where the value is materialised), string concatenation
   (`desugared_binop`), and `match` (examinee
   materialised once, discriminant switch, one guard chain per discriminant
   with the `_` arms woven in in source order, binders assigned before the
@@ -827,14 +842,16 @@ example : ((evalParts [] 9 [] (.expr (tokE 1 4) (.expr (.ret (emitI 2 7)) (.expr
 -- lowerS_fstring_implicit_call_partial: the f-string is in the lowering model's fragment
 example : (lowerE (.fstr demoFStr) 0).isSome = true := by decide
 -- eq_on_host_type_calls_after_operands: `tok(1, 4) != tok(2, 9)`
-example : (evalExpr [] 9 [] (.bin .ne (tokE 1 4) (tokE 2 9))).yields
+example : (evalExpr [] 9 [] (.eqH true (tokE 1 4) (tokE 2 9))).yields
     [⟨8, [.int 1, .int 4]⟩, ⟨8, [.int 2, .int 9]⟩, ⟨fnEq, [.tok 4, .tok 9]⟩] ([], .bool true) := by decide
--- operator_on_primitives_makes_no_call
-example : opCalls .eq (.int 3) (.int 3) = [] ∧ opCalls .eq (.tok 3) (.tok 3) = [⟨fnEq, [.tok 3, .tok 3]⟩] := by decide
+example : eqCalls false (.tok 3) (.tok 3) = [⟨fnEq, [.tok 3, .tok 3]⟩] := by decide
+-- host_eq_operand_leaves: `tok(1, 4) == (return emit(2, 7))`
+example : (evalExpr [] 9 [] (.eqH false (tokE 1 4) (.ret (emitI 2 7)))).leaves
+    [⟨8, [.int 1, .int 4]⟩, ⟨0, [.int 2, .int 7]⟩] (.int 7) := by decide
 -- T2 on a function with implicit calls: `{ let x1: Tok = tok(1, x0); if x1 == tok(2, 4) { … }; f"{x1}{emit(3, x0)}{tok(4, 5)}" }`
 def demoFn8 : FnDef :=
   ⟨[0], .let_ 1 (.host 8 (.cons (.lit (.int 1)) (.cons (.var 0) .nil)))
-    (.stmt (.if1 (.bin .eq (.var 1) (tokE 2 4)) (.stmt (emitI 5 0) .nil))
+    (.stmt (.if1 (.eqH false (.var 1) (tokE 2 4)) (.stmt (emitI 5 0) .nil))
       (.last (.fstr (.expr (.var 1) (.expr (emitVar 3 0) (.expr (tokE 4 5) .nil))))))⟩
 example : (lowerFn demoFn8).isSome = true := by decide
 example : ((evalBlock [] 40 [(0, .int 4)] demoFn8.body).tr.map (·.fn)) = [8, 8, 11, 0, 9, 0, 8, 9] := by decide
